@@ -155,18 +155,18 @@ pub(crate) fn get_missing_files<S>(
             .filter_map(|(id, size_hot)| match cold_files.get(id) {
                 Some(size_cold) if size_cold == size_hot => Some(*id),
                 Some(size_cold) => {
-                     warn!("sizes mismatch: type {file_type:?}, id: {id}, size hot: {size_hot}, size cold: {size_cold}. Ignoring...");
+                     warn!("sizes mismatch: type {file_type:?}, id: {id}, size hot: {size_hot}, size cold: {size_cold}. Will be copied again from cold to hot.");
                     None
                 }
                 None => None,
             })
             .collect();
 
-    let retain = |files: BTreeMap<_, _>| {
+    let retain = |files: BTreeMap<_, _>, exclude: &dyn Fn(&Id) -> bool| {
         let mut retain_size: u64 = 0;
         let only: Vec<_> = files
             .into_iter()
-            .filter(|(id, _)| !common.contains(id) && is_relevant(id))
+            .filter(|(id, _)| !exclude(id) && is_relevant(id))
             .map(|(id, size)| {
                 retain_size += u64::from(size);
                 id
@@ -175,8 +175,11 @@ pub(crate) fn get_missing_files<S>(
         (only, retain_size)
     };
 
-    let (cold_only, cold_only_size) = retain(cold_files);
-    let (hot_only, hot_only_size) = retain(hot_files);
+    // Files present in both parts with differing sizes are only re-copied from the cold to the hot part.
+    // They must never be copied from hot to cold: that would overwrite the cold file by an incomplete hot one.
+    let (hot_only, hot_only_size) = retain(hot_files, &|id| cold_files.contains_key(id));
+    let (cold_only, cold_only_size) = retain(cold_files, &|id| common.contains(id));
+
     Ok((cold_only, cold_only_size, hot_only, hot_only_size))
 }
 
